@@ -1090,7 +1090,25 @@ struct SigEntry {
   std::vector<TypeId> args;
   void* c_callee[2];
   void (*c_caller[2])(void*);
+  int va = -1;          // index of the first variadic argument, -1: not variadic
+  int expect_al = -1;   // SysV: what gcc and clang (agreeing) load into AL for the same call, -1: no verdict
 };
+
+// AL observer for variadic SysV calls: the invoke target is this thunk, which stores EAX and tail-jumps to the real callee
+static uint32_t g_al_seen = 0;
+static void* g_thunk_target = nullptr;
+static void* g_al_thunk = nullptr;
+
+static bool build_al_thunk(JitRuntime& rt) {
+  CodeHolder code;
+  code.init(rt.environment(), rt.cpu_features());
+  x86::Assembler a(&code);
+  a.mov(x86::r11, imm(uint64_t(uintptr_t(&g_al_seen))));
+  a.mov(x86::dword_ptr(x86::r11), x86::eax);
+  a.mov(x86::r11, imm(uint64_t(uintptr_t(&g_thunk_target))));
+  a.jmp(x86::qword_ptr(x86::r11));
+  return rt._add(&g_al_thunk, &code) == Error::kOk;
+}
 static std::vector<SigEntry> g_sigs;
 
 template<typename R, typename... A> static void reg_sig() {
@@ -1322,7 +1340,7 @@ int mode_interop(const Args& args) {
   if (args.u64("fixed", 1)) register_sigs();
   // generated callees/callers: shared objects produced by vlib/props/c06.py for this run's signatures (gcc, -mavx512f as available)
   {
-    struct GenEntry { const char* ret; const char* args[16]; int nargs; void* callee[2]; void (*caller[2])(void*); };
+    struct GenEntry { const char* ret; const char* args[16]; int nargs; int va; int al; void* callee[2]; void (*caller[2])(void*); };
     std::string libs = args.str("callees", "");
     size_t pos = 0;
     while (pos < libs.size()) {
@@ -1345,12 +1363,15 @@ int mode_interop(const Args& args) {
         for (int k = 0; k < table[i].nargs; k++) se.args.push_back(type_by_name(table[i].args[k]));
         se.c_callee[0] = table[i].callee[0]; se.c_callee[1] = table[i].callee[1];
         se.c_caller[0] = table[i].caller[0]; se.c_caller[1] = table[i].caller[1];
+        se.va = table[i].va;
+        se.expect_al = table[i].al;
         g_sigs.push_back(se);
       }
     }
   }
   JitRuntime rt;
   IoStats st;
+  build_al_thunk(rt);
   Rng rng(seed * 0x2545F4914F6CDD1Dull + 6);
   static const char* conv_names[2] = {"sysv64", "win64"};
   static const CallConvId conv_ids[2] = {CallConvId::kX64SystemV, CallConvId::kX64Windows};
@@ -1361,7 +1382,11 @@ int mode_interop(const Args& args) {
       FuncSignature sig(conv_ids[cv]);
       sig.set_ret(e.ret);
       for (TypeId t : e.args) sig.add_arg(t);
-      std::string text = std::string(conv_names[cv]) + " " + sig_text(sig);
+      if (e.va >= 0) sig.set_va_index(uint32_t(e.va));
+      if (!e.c_callee[cv]) continue;      // e.g. no ms_abi variadic callee for vectors (gcc's ms va_arg reads them by value)
+      const bool is_va = e.va >= 0;
+      const std::string vk = is_va ? ":va" : "";
+      std::string text = std::string(conv_names[cv]) + " " + sig_text(sig) + (is_va ? " [variadic from argument " + std::to_string(e.va) + "]" : "");
       // gcc (hidden pointer) and clang (ymm0/zmm0) disagree on how ms_abi returns 256/512-bit vectors: no oracle
       if (cv == 1 && TypeUtils::size_of(e.ret) > 16) continue;
 
@@ -1370,7 +1395,8 @@ int mode_interop(const Args& args) {
         CodeHolder code;
         code.init(rt.environment(), rt.cpu_features());
         x86::Compiler cc(&code);
-        emit_caller(cc, sig, imm(uint64_t(uintptr_t(e.c_callee[cv]))));
+        const bool watch_al = is_va && cv == 0 && g_al_thunk;
+        emit_caller(cc, sig, imm(uint64_t(uintptr_t(watch_al ? g_al_thunk : e.c_callee[cv]))));
         Error err = cc.finalize();
         void* fn = nullptr;
         if (err == Error::kOk) err = rt._add(&fn, &code);
@@ -1383,15 +1409,26 @@ int mode_interop(const Args& args) {
           st.built++;
           for (uint64_t r = 0; r < reps; r++) {
             fill_values(rng, sig);
+            g_thunk_target = e.c_callee[cv];
+            g_al_seen = 0xFFFFFFFFu;
             CallCtx ctx{call_void_fn, fn};
             int sg = run_guarded(call_ctx, &ctx);
             st.calls++;
-            if (sg) { io_violation(st, std::string("interop:") + conv_names[cv] + ":jit-caller:crash", "JIT caller of C callee " + text + " crashed with signal " + std::to_string(sg)); break; }
-            if (g_cal.n != sig.arg_count()) { io_violation(st, std::string("interop:") + conv_names[cv] + ":jit-caller:callee-not-reached", "C callee " + text + " was not entered"); break; }
+            if (watch_al && !sg) {
+              uint32_t al = g_al_seen & 0xFFu;
+              if (g_al_seen == 0xFFFFFFFFu) io_violation(st, "interop:sysv64:va:thunk-not-reached", "variadic call " + text + " never reached the call target");
+              else if (al > 8) io_violation(st, "interop:sysv64:va:al-out-of-range", "variadic call " + text + ": AL = " + std::to_string(al) + " at the call (the ABI allows 0..8)");
+              else if (e.expect_al >= 0 && int(al) < e.expect_al)
+                io_violation(st, "interop:sysv64:va:al-too-small", "variadic call " + text + ": AL = " + std::to_string(al) + " at the call, gcc and clang both load " + std::to_string(e.expect_al) +
+                             " (AL must be an upper bound of the number of vector registers used; a callee that trusts it does not save the others)");
+              else if (e.expect_al >= 0 && int(al) > e.expect_al) st.rejects["note:al-larger-than-compilers"]++;
+            }
+            if (sg) { io_violation(st, std::string("interop:") + conv_names[cv] + vk + ":jit-caller:crash", "JIT caller of C callee " + text + " crashed with signal " + std::to_string(sg)); break; }
+            if (g_cal.n != sig.arg_count()) { io_violation(st, std::string("interop:") + conv_names[cv] + vk + ":jit-caller:callee-not-reached", "C callee " + text + " was not entered"); break; }
             for (uint32_t i = 0; i < sig.arg_count(); i++) {
               uint32_t sz = TypeUtils::size_of(sig.arg(i));
               if (memcmp(g_cal.data[i], g_in[i], sz) != 0) {
-                io_violation(st, std::string("interop:") + conv_names[cv] + ":jit-caller:arg:" + cls_of(sig.arg(i)),
+                io_violation(st, std::string("interop:") + conv_names[cv] + vk + ":jit-caller:arg:" + cls_of(sig.arg(i)),
                              "JIT caller -> C callee " + text + ": argument " + std::to_string(i) + " (" + type_name(sig.arg(i)) + ") passed " + hexstr(g_in[i], sz) + ", callee received " + hexstr(g_cal.data[i], sz));
                 break;
               }
@@ -1399,7 +1436,7 @@ int mode_interop(const Args& args) {
             if (sig.ret() != TypeId::kVoid) {
               uint32_t sz = TypeUtils::size_of(sig.ret());
               if (memcmp(g_retout, g_retval, sz) != 0)
-                io_violation(st, std::string("interop:") + conv_names[cv] + ":jit-caller:ret:" + cls_of(sig.ret()),
+                io_violation(st, std::string("interop:") + conv_names[cv] + vk + ":jit-caller:ret:" + cls_of(sig.ret()),
                              "JIT caller -> C callee " + text + ": callee returned " + hexstr(g_retval, sz) + ", caller saw " + hexstr(g_retout, sz));
             }
           }
@@ -1407,8 +1444,8 @@ int mode_interop(const Args& args) {
         }
       }
 
-      // ---- direction B: C caller -> JIT callee ----
-      {
+      // ---- direction B: C caller -> JIT callee ---- (a JIT function cannot read its own variadic arguments)
+      if (!is_va && e.c_caller[cv]) {
         CodeHolder code;
         code.init(rt.environment(), rt.cpu_features());
         x86::Compiler cc(&code);
